@@ -176,6 +176,18 @@ CHECKS = {
         technique="TLA+ model + TLC exhaustive exploration; spec-to-code replay; TLC trace validation",
         design_ref="4 C18",
         note=TRUST),
+    "C19": dict(
+        category="model_checking",
+        text="TLC explores the as-coded model spec/AwsDiscovery.tla (reconfigure_nodes as fixed, interleaved with traffic, failover evictions, "
+             "revivals and ERROR replies, over every non-empty ordered node list of a 3- (thorough 4-) node universe) against the contract "
+             "monitor spec/DiscoveryRule.tla and exports every behaviour; each is replayed into the real AWSElastiCacheHashClient over a "
+             "multi-server fake socket module whose endpoint serves 'config get cluster' through the real socket reader under seven "
+             "segmentations (one piece, single bytes, cut inside / before the 7-byte end token, after every CR, before every LF), followed by a "
+             "key corpus routed with real commands; plus random scale-up/scale-down/replace sequences over 1..6 nodes, use_vpc on/off, ERROR "
+             "replies (connection closed, kept open, inside a terminated reply). TLC validates: rotation = advertised list (IP or host name, "
+             "advertised ports), every key goes to an advertised node, connections to replaced nodes are closed, ERROR surfaces as a memcached error.",
+        technique="TLA+ reconfiguration model model-checked against the contract monitor; spec-to-code replay; TLC trace validation",
+        design_ref="4 C19", note=TRUST + " use_pooling=True is outside the property's configurations (the constructor raises TypeError with it: observation in DESIGN.md)."),
     "C20": dict(
         category="model_checking",
         text="TLC enumerates every key of length 1..2 (thorough 3) over byte / code-point class representatives x prefix classes x "
